@@ -233,12 +233,15 @@ def run(chk, model_ok=True):
     # values of a GetBulk walk that follows a walk the caller abandoned (rows left in that iterator's buffer)
     from props import c05
     for mode in ("sync", "async"):
-        for _ in range(40 if quick else 400):
-            mib, base = c05.gen_mib(rng, rng.random() < 0.3)
-            maxrep, cap = rng.choice([2, 5, 20]), rng.choice([2, 5, 50, 50])
+        for k_ in range(40 if quick else 400):
+            # (the first walks of each client are the fixed corner: a table below the base, few rows asked for, an agent
+            #  that sends many more in one reply)
+            corner = k_ < 4
+            mib, base = c05.gen_mib(rng, corner or rng.random() < 0.3)
+            maxrep, cap = (rng.choice([2, 5]), 50) if corner else (rng.choice([2, 5, 20]), rng.choice([2, 5, 50, 50]))
             peer = rng.choice([e2e.Peer("v2c"), e2e.Peer("v3", auth=1, priv=1, auth_kt="localized", priv_kt="localized")])
             # (half of the agents answer with `cap` rows however few were asked for: every row sent must arrive)
-            over = rng.random() < 0.5
+            over = corner or rng.random() < 0.5
             out = c05.run_mode(mode, peer, "bulk", values.dotted(base), maxrep,
                                c05.agent_replies(mib, base, "bulk", maxrep, cap, False, over), env, False, True, rng.random() < 0.5)
             n_cli += 1
